@@ -95,7 +95,7 @@ func (a *Analysis) snap(site *Site, st *State, recv *Term, args []*Term, val, id
 		return
 	}
 	site.seen[key] = true
-	sn := &Snap{Sticky: st.Sticky, F: st.F.clone(), Killed: map[string]int{}, Events: map[string]bool{}, Recv: recv, Args: args, Val: val, Idx: idx, Trail: strings.Join(st.Trail, " ; ")}
+	sn := &Snap{Sticky: st.Sticky, TrailL: append([]Lit{}, st.TrailL...), F: st.F.clone(), Killed: map[string]int{}, Events: map[string]bool{}, Recv: recv, Args: args, Val: val, Idx: idx, Trail: strings.Join(st.Trail, " ; ")}
 	for k, v := range st.Killed {
 		sn.Killed[k] = v
 	}
